@@ -47,7 +47,7 @@ TState ==
            done == t.hc = 1 /\ t.err = 0
            v == VNum(t.ver)
        IN /\ edited => ~done                                                   \* any in-transit change to a hello fails
-          /\ done => /\ v \in Common /\ v = Max(EffCommon)                     \* enabled by both, and the highest both can run
+          /\ done => /\ v \in Common /\ EffCommon # {} /\ v = Max(EffCommon)  \* enabled by both, and the highest both can run
                      /\ t.suite \in SuitesFor(v)
                      /\ v = 13 => t.grp \in CG \cap SG
                      /\ ~(cfg["C"].scsv = 1 /\ Max(SV) > Max(CV))              \* unjustified fallback refused
